@@ -54,6 +54,8 @@ def run_case(case):
     else:
         from mcv.checks import c02
         payload = R.build_roland(c02.norm_model(case["model"]))[0]
+    if case.get("drop_sectors"):
+        payload = payload[:len(payload) - 8192 * case["drop_sectors"]]
     payload += bytes((i * 7 + 1) & 0xFF for i in range(case.get("trailing", 0))) if case.get("trail_kind") == "junk" else bytes(case.get("trailing", 0))
     with scratch_dir("c09") as d:
         paths = write_encodings(d, payload)
@@ -124,6 +126,12 @@ class Check(CheckBase):
             tr = [0, 1, 2047, 2048][i % 4] if self.quick else None
             for t in ([tr] if tr is not None else [0, 1, 2047, 2048]):
                 cases.append({"fmt": "akai", "spec": c["spec"], "trailing": t, "trail_kind": "junk" if (i // 4) % 2 else "zero"})
+        # payloads whose last partition declares more sectors than the file holds (cut at multiples of 2048, so that no
+        # container adds padding and all five carry the same logical bytes)
+        for nparts in (1, 2):
+            for drop in (1, 2, 3):
+                spec = c01.structure_spec(nparts, 2, 3, 3, "linked", pair=True)
+                cases.append({"fmt": "akai", "spec": spec, "trailing": 0, "trail_kind": "zero", "drop_sectors": drop})
         ro = list(itertools.chain(c02.sweep_chains(self.quick), c02.sweep_window(self.quick), c02.sweep_header(self.quick)))
         ro = ro[::12] if self.quick else ro[::2]
         rcases = []
